@@ -74,6 +74,9 @@ impl FileStack {
                         })
                         .collect();
                     self.add_files(&paths, reports);
+                } else {
+                    // A directory which cannot be read is reported like a file which cannot.
+                    reports.push(FileOsError { path: path.display().to_string() }.into_report());
                 }
             } else {
                 // A file which is named explicitly is added to the file stack
